@@ -357,13 +357,15 @@ let roots_by_elimination (c : case) (sp : spec) : rnum list option =
       let x = n_of_int xi in
       (* drop the coefficients of y^k, k > degree under the assignment *)
       let p = List.filter (fun (m, _) -> ni (mono_deg c.y m) <= sp.degree) p in
+      (* the specialisation of p (degree deg under the assignment) when it is square-free *)
+      let elim (p : mpoly) (deg : int) : rnum list option =
       if not (List.mem xi (vars_of p)) then Some (some_or_fuel (rn_roots fuel (pnorm (mp_to_upoly c.y p)))) else begin
-        let lcx = pnorm (mp_to_upoly x (mp_coeff c.y (n_of_int sp.degree) p)) in
+        let lcx = pnorm (mp_to_upoly x (mp_coeff c.y (n_of_int deg) p)) in
         let m0 = (match alpha with RA (m, _, _) -> psqfree m | RQ _ -> assert false) in
         let m = if deg_of lcx < 1 then m0 else strip_common m0 lcx in
         (* square-free test: D(x) = Res_y(A, dA/dy), D(alpha) <> 0 *)
         let squarefree =
-          if sp.degree = 1 then true else begin
+          if deg = 1 then true else begin
             let a = bp_trim (bivariate c.y x p) and b = bp_trim (bivariate c.y x (mp_deriv c.y p)) in
             let d = bires a b in
             sign_alg d alpha <> 0
@@ -390,6 +392,24 @@ let roots_by_elimination (c : case) (sp : spec) : rnum list option =
                 if sl = 0 || sh = 0 then raise (Model_error "specialisation vanishes at an end of a candidate's isolating interval");
                 sl <> sh) cands)
         end
+      end in
+      (* the coefficients of y^0 .. y^(j-1) vanish at alpha (exact signs): A(alpha, y) = y^j B(alpha, y) with
+         B = sum_{k >= j} c_k y^(k-j), B(alpha, 0) <> 0; the roots are 0 and the roots of B(alpha, .), none when B is
+         constant in y (the specialisation collapsed to the single term c_deg(alpha) y^deg) *)
+      let cs = mp_coeffs c.y p in
+      let rec low j = function
+        | co :: r when j < sp.degree && sign_poly c None co = 0 -> low (j + 1) r
+        | _ -> j in
+      let j = low 0 cs in
+      if j = 0 then elim p sp.degree
+      else begin
+        let b = List.fold_left (fun acc (k, co) ->
+            if k < j then acc else mp_add acc (mp_mul co (mp_var_pow c.y (n_of_int (k - j)))))
+            [] (List.mapi (fun k co -> (k, co)) cs) in
+        if sp.degree - j = 0 then Some [RQ q0]
+        else match elim b (sp.degree - j) with
+          | Some rs -> Some (sort_dedup (RQ q0 :: rs))
+          | None -> None
       end
     | _ -> None
   end
